@@ -191,7 +191,8 @@ static bool loadCase(const std::string& line, uint64_t seed, Case& c) {
     c.fOn = c.j[3];
     c.why = c.j[4];
     c.phase = c.j[5];
-    for (auto& t : c.j[1]) if (t[0] == "DT") c.hasDT = true;
+    // a DOCTYPE declaration, well-formed or not: WFXMLScanner and SGXMLScanner are documented to skip it, so they are not held to such cases
+    for (auto& t : c.j[1]) if (t[0] == "DT" || (t[0] == "BAD" && t[1].get<std::string>().find("doctype") != std::string::npos)) c.hasDT = true;
     tr::Rng rng(seed ^ tr::hashStr(c.j[1].dump()));
     c.doc = tr::render(c.j[1], rng, tr::Options(), &c.enc);
     return true;
